@@ -1,3 +1,5 @@
+import FM.Generated.Patterns
+import FM.Model.PatternBaseline
 import FM.Lemmas.TagSeg
 /-
   C06 — Template tags and other atomic constructs are never split or displaced.
@@ -95,5 +97,10 @@ example : mdFillWrapper 88 "x {% a %}{% /a %} y".toList [] [] = "x {% a %}{% /a 
 /-- however narrow the width, an atom is one word: a link with spaces at width 5. -/
 example : mdFillWrapper 5 "see [a b c](http://u v) now".toList [] []
     = "see\n[a b c](http://u v)\nnow".toList := by decide
+
+
+/-- PATTERNS_AS_MODELLED: the regular expressions of the source files this property's models were written against
+(regenerated from /repo's working tree on every run by harness/translate_patterns.py) are the recorded ones. -/
+theorem PATTERNS_AS_MODELLED : FM.Gen.patterns_C06 = FM.Baseline.patterns_C06 := by decide +kernel
 
 end FM.C06
